@@ -45,6 +45,20 @@ PROPS = {
         assumptions=["any merge may fail with an error provided the parent is left untouched (the statement allows conflict errors); successes are counted in reach_probes",
                      "object contents are verified when first seen (C14 checks), the merge/revert model itself is at object level"],
     ),
+    "C17": dict(
+        engine="lakesim", level="fault_enumeration",
+        budget_s=dict(quick=90, thorough=1800),
+        rule=("base case = seeded history (0..7 ops, both storage models, knobs as C14) + a victim operation (init; pool create/rename/drop; load, delete, delete-where, compact, "
+              "vector add/del, vacuum, branch create/drop, merge, revert) run fault-free to count the victim's mutating storage steps N (put-create, every write call, put-close, "
+              "put-if-absent incl. its create/fill gap on the file model, delete, delete-by-prefix); then for every k in 1..N (quick: <=40 sampled when N>40; thorough: <=400) the whole "
+              "case is re-run with a fail-stop at step k (file model: additionally with the fatal write call torn to 1..7 eighths; a quarter of the k also with a second crash inside "
+              "the follow-up). After each crash: reopen cold, each branch all-or-nothing against the model, other branches and pool table intact, fixed follow-up workload succeeds. "
+              "Non-trivial = the crash fired inside the victim; distinct = distinct hash of all draws (history, victim, k, tear, second crash)."),
+        real=REAL_LAKE, stub=STUB_LAKE,
+        assumptions=["a crash is a fail-stop of the process: every later storage call of that process fails; completed write calls are durable (power loss / lost page cache is not modelled: the repository never syncs)",
+                     "orphan files (data objects, commit objects, pool directories written before the commit point) are allowed",
+                     "crash points are the mutating storage steps; a crash before a read equals a crash after the preceding mutation"],
+    ),
     "C18": dict(
         engine="streamsim", level="fault_enumeration",
         budget_s=dict(quick=40, thorough=1500),
